@@ -70,6 +70,13 @@ def cases(tier, rnd):
             if rnd.random() < .5: x[133] = 1
             cs.append(bytes(x))
     cs += [world.rand_bytes(rnd, rnd.choice([159, 165, 168])) for _ in range(100)]
+    # frames of other lengths that are self-consistent: a correct signature (Spec/Sign.v) over everything before it, and a truthful length field
+    bodies = []
+    for n in (40, 100, 155, 156, 161, 162, 163, 164, 166, 167, 170, 200, 400):
+        for c in caps[:2]:
+            b = bytearray((c + world.rand_bytes(rnd, 400))[:n]); b[2:4] = (n + 4).to_bytes(2, "little"); bodies.append(bytes(b))
+    signed = lib.run_model([lib.req("sign_spec", b.hex()) for b in bodies])
+    cs += [bytes.fromhex(t[3:]) for t in signed if t.startswith("ok ")]
     for c in caps:                         # other spellings of a genuine broadcast: hex text, base64, with a BOM, doubled
         import base64
         cs += [c.hex().encode(), c.hex().upper().encode(), b"0x" + c.hex().encode(), base64.b64encode(c), b"\xef\xbb\xbf" + c, c + c, c[::-1]]
@@ -120,6 +127,30 @@ def run_bridge(out, stream, dgrams):
     lib.differential(out, stream, cs, io, mo, ex, describe, sample=describe, classify=lambda c, i: "bridge/" + i)
 
 
+def run_pairs(out, rnd):
+    """one bridge, a genuine broadcast of a device and then a frame of the same device id with an unknown model code (and the other
+    way round): what the bridge has seen before does not make an unknown model known"""
+    caps = [c for c, m in zip(c05.captures(), lib.run_model([lib.req("bcast", c) for c in c05.captures()])) if "|" in m]     # the genuine ones
+    pairs = []
+    for c in caps:
+        for code in (b"\xff\xff", b"\x00\x00", b"\xee\x01"):
+            u = bytearray(c); u[74:76] = code; pairs.append([c, bytes(u)]); pairs.append([bytes(u), c]); pairs.append([c, c, bytes(u), bytes(u)])
+    async def go():
+        res = []
+        for p in pairs:
+            log, nh, nw, complete = await world.feed_bridge(1, [(0, d) for d in p], (), c05.show, sentinel, serial=True)
+            res.append("%d delivered, %d unknown-device warnings, %d escaped exceptions" % (len(log), nw, nh) if complete else "barrier-lost")
+        return res
+    io = asyncio.run(go())
+    lost = [k for k, t in enumerate(io) if t == "barrier-lost"]
+    if lost:
+        keep = pairs; pairs = [keep[k] for k in lost]; again = asyncio.run(go()); pairs = keep
+        for k, t in zip(lost, again): io[k] = t
+    ex = ["%d delivered, %d unknown-device warnings, 0 escaped exceptions" % (sum(1 for d in p if bytes(d[74:76]) in known_codes()), sum(1 for d in p if bytes(d[74:76]) not in known_codes())) for p in pairs]
+    lib.differential(out, "known-and-unknown-models-of-one-device-through-one-bridge", [{"d": "|".join(x.hex() for x in p)} for p in pairs], io, None, ex,
+                     lambda c: "one bridge, datagrams with model codes %s" % [x[148:152] for x in c["d"].split("|")], sample=lambda c: c["d"][:60])
+
+
 def run(tier, rnd, out):
     corpus = lib.load_corpus("C06")
     if corpus: run_direct(out, "corpus", [bytes.fromhex(c["d"]) for c in corpus])
@@ -132,6 +163,7 @@ def run(tier, rnd, out):
     longer = [c + world.rand_bytes(rnd, k) for c in c05.captures() for k in (1, 2, 3, 4, 40, 300, 1000)]
     longer += [b"\xfe\xf0" + world.rand_bytes(rnd, n - 2) for n in (169, 170, 200, 256, 336, 400, 1400)]
     run_bridge(out, "through-a-running-bridge", rnd.sample(cs, 60 if tier == "quick" else 600) + longer)
+    run_pairs(out, rnd)
     out.exhaustive = tier == "thorough"
     out.notes.append("thorough enumerates all 65536 model codes on each accepted length")
 
